@@ -47,7 +47,7 @@ type tOpt struct {
 	LazyQueue int      // MaxConcurrentQueryWhileDialing (0: default)
 	CtxMode   []int    // per caller: 0 background, 1 timeout 3s, 2 cancelled by a concurrent thread
 	Srv       srvOpt
-	DialMenu  []int // allowed dial behaviours: 0 ok, 1 error, 2 hang until its context ends, 3 hang ignoring its context (until the harness finishes), 4 ok but the peer has already closed
+	DialMenu  []int // allowed dial behaviours: 0 ok, 1 error, 2 hang until its context ends, 3 hang ignoring its context (until the harness finishes), 4 ok but the peer has already closed, 5 ok after 4 s (a slow handshake that still beats the dial timeout)
 	Closer    bool  // a concurrent thread calls Close on the transport / connection
 	StartQid  uint16
 	SeedQueue int // pre-occupied wire IDs following StartQid (forces the skip loop)
@@ -429,6 +429,14 @@ func (s *tsys) dialNet(ctx context.Context) (NetConn, error) {
 		s.dialLog = append(s.dialLog, "stuck")
 		vs.Block("dial.stuck", s.key(), func() bool { return s.finished })
 		return nil, errDial
+	case 5:
+		s.dialLog = append(s.dialLog, "ok") // a dial that works, only slowly
+		tm := vs.NewTimer(4 * time.Second)
+		if vs.Select(vs.RecvCase(tm.C), vs.RecvCase(ctx.Done())) == 1 {
+			tm.Stop()
+			return nil, context.Cause(ctx)
+		}
+		return s.newConn().a, nil
 	case 4:
 		s.dialLog = append(s.dialLog, "ok-peer-closed")
 		cn := s.newConn()
